@@ -663,5 +663,57 @@ func builtinPrograms() []*Program {
 			"user/v1/user.j5s":    j5s("package user.v1", "import bulk.v1", "", "object Holder {", "  field item object:bulk.v1.Item004", "  field part object:bulk.v1.Part129", "  field kind enum:bulk.v1.Kind002", "}"),
 		},
 	})
+
+	// 17. a dependency package with a sub-package directory (ext/v1/service/...: package
+	// ext.v1.service) next to its parent (ext.v1), both defining a message Filter; local files refer
+	// to both, directly and through another local package.
+	mkMsg := func(path, pkg string, deps []string, names ...string) *descriptorpb.FileDescriptorProto {
+		f := &descriptorpb.FileDescriptorProto{Name: proto.String(path), Syntax: proto.String("proto3"), Package: proto.String(pkg), Dependency: deps}
+		for _, n := range names {
+			f.MessageType = append(f.MessageType, &descriptorpb.DescriptorProto{Name: proto.String(n), Field: []*descriptorpb.FieldDescriptorProto{{
+				Name: proto.String("f1"), JsonName: proto.String("f1"), Number: proto.Int32(1),
+				Type: descriptorpb.FieldDescriptorProto_TYPE_STRING.Enum(), Label: descriptorpb.FieldDescriptorProto_LABEL_OPTIONAL.Enum()}}})
+		}
+		return f
+	}
+	out = append(out, &Program{
+		Name:     "builtin/dep_subpackage",
+		Packages: []string{"shop.v1", "stock.v1"},
+		Deps: []*descriptorpb.FileDescriptorProto{
+			mkMsg("ext/v1/service/filter.proto", "ext.v1.service", nil, "Filter", "Cursor"),
+			mkMsg("ext/v1/thing.proto", "ext.v1", nil, "Thing", "Filter"),
+			mkMsg("ext/v1/topic/note.proto", "ext.v1.topic", []string{"ext/v1/thing.proto"}, "Note"),
+		},
+		Files: map[string]string{
+			"shop/v1/query.j5s": j5s("package shop.v1", "import ext.v1", "import ext.v1.service", "", "object Query {", "  field filter object:ext.v1.service.Filter", "  field thing object:ext.v1.Thing", "  field plain object:ext.v1.Filter", "}"),
+			"shop/v1/page.j5s":  j5s("package shop.v1", "import ext.v1.service", "", "object Page {", "  field cursor object:ext.v1.service.Cursor", "  field query object:Query", "}"),
+			"stock/v1/item.j5s": j5s("package stock.v1", "import shop.v1", "import ext.v1.topic", "import ext.v1", "", "object Item {", "  field query object:shop.v1.Query", "  field note object:ext.v1.topic.Note", "  field filter object:ext.v1.Filter", "}"),
+		},
+	})
+
+	// 18. the j5 types that need no import in j5s (j5.list.v1 paging, j5.state.v1 metadata through
+	// an entity) in an ordinary bundle ...
+	out = append(out, &Program{
+		Name:     "builtin/implicit_j5_types",
+		Packages: []string{"shop.v1"},
+		Files: map[string]string{
+			"shop/v1/orders.j5s": j5s("package shop.v1", "", "object OrderPage {", "  field request object:j5.list.v1.PageRequest", "  field response object:j5.list.v1.PageResponse", "  field query object:j5.list.v1.QueryRequest", "}"),
+			"shop/v1/order.j5s":  ent("shop.v1", "Order"),
+		},
+	})
+	// 19. ... and a bundle that carries its own (forked) copy of those j5 packages, the known files
+	// forwarding with `import public` to the files the types were moved to: valid, and compiling it
+	// must not change what any other bundle compiles to later in the same process.
+	out = append(out, &Program{
+		Name:     "builtin/vendored_j5",
+		Packages: []string{"j5.list.v1", "j5.state.v1", "tool.v1"},
+		Files: map[string]string{
+			"j5/list/v1/page.proto":      pf("j5.list.v1", []string{`import public "j5/list/v1/query.proto";`}, "message PageResponse {", "  optional string next_token = 1;", "}"),
+			"j5/list/v1/query.proto":     pf("j5.list.v1", nil, "message PageRequest {", "  optional string token = 1;", "}", "", "message QueryRequest {", "}"),
+			"j5/state/v1/metadata.proto": pf("j5.state.v1", []string{`import public "j5/state/v1/state.proto";`}, "message EventMetadata {", "  string event_id = 1;", "}"),
+			"j5/state/v1/state.proto":    pf("j5.state.v1", nil, "message StateMetadata {", "  uint64 last_sequence = 1;", "}"),
+			"tool/v1/tool.j5s":           j5s("package tool.v1", "", "object Tool {", "  field request object:j5.list.v1.PageRequest", "  field state object:j5.state.v1.StateMetadata", "}"),
+		},
+	})
 	return out
 }
